@@ -296,8 +296,16 @@ func (n *nilAn) loadN(addr ssa.Value) (string, bool) {
 		}
 		switch x := v.(type) {
 		case *ssa.Alloc:
-			o, ok := n.nallocs[x]
-			return o, ok
+			if o, ok := n.nallocs[x]; ok {
+				return o, true
+			}
+			// the spill slot of a parameter (captured by a closure / address
+			// taken): the object behind it is the caller's
+			if spillOfParam(x) {
+				o, ok := n.nfields[firstField(addr)]
+				return o, ok
+			}
+			return "", false
 		case *ssa.FieldAddr:
 			v = x.X
 		case *ssa.IndexAddr:
@@ -436,6 +444,9 @@ func (n *nilAn) scan(fn *ssa.Function) {
 						}
 						if o, ok := n.nvals[a]; ok {
 							if isPtrLike(a.Type()) && n.nonNilAt(call, a) {
+								continue
+							}
+							if strings.Contains(o, "the field is cleared") && n.clearedButSetBefore(fn, call, a) != "" {
 								continue
 							}
 							n.markN(g.Params[i], o+" via "+fname)
@@ -617,6 +628,38 @@ func (e *E3) g6(r *Result, prefix string, f *Flow) {
 			}
 		}
 	}
+	// fields the code itself clears: a pointer-typed field of a shared object
+	// (reached through a parameter, not a fresh local) that some region code
+	// assigns nil may be nil the next time any method loads it
+	for _, fn := range e.order {
+		if !f.Region[fn] {
+			continue
+		}
+		for _, b := range fn.Blocks {
+			for _, in := range b.Instrs {
+				st, ok := in.(*ssa.Store)
+				if !ok {
+					continue
+				}
+				c, isC := st.Val.(*ssa.Const)
+				if !isC || !c.IsNil() || !isPtrLike(st.Val.Type()) {
+					continue
+				}
+				fa, ok := st.Addr.(*ssa.FieldAddr)
+				if !ok {
+					continue
+				}
+				if _, fresh := rootOf(fa).(*ssa.Alloc); fresh {
+					continue
+				}
+				if fld := fieldName(fa.X.Type(), fa.Field); fld != "" {
+					if _, had := n.nfields[fld]; !had {
+						n.nfields[fld] = "the field is cleared (assigned nil) at " + p.instrPos(st)
+					}
+				}
+			}
+		}
+	}
 	for round := 0; ; round++ {
 		n.changed = false
 		for _, fn := range e.order {
@@ -664,11 +707,25 @@ func (e *E3) g6(r *Result, prefix string, f *Flow) {
 						continue
 					}
 					sc := cc.StaticCallee()
-					if sc == nil || sc.Signature.Recv() == nil || p.body(sc) != nil {
+					if sc == nil || p.body(sc) != nil {
 						continue
 					}
-					if _, ok := n.nvals[cc.Args[0]]; ok && isPtrLike(cc.Args[0].Type()) {
-						sinks = append(sinks, sink{in, cc.Args[0], "receiver of " + p.calleeOf(cc).Name})
+					if sc.Signature.Recv() != nil {
+						if _, ok := n.nvals[cc.Args[0]]; ok && isPtrLike(cc.Args[0].Type()) {
+							sinks = append(sinks, sink{in, cc.Args[0], "receiver of " + p.calleeOf(cc).Name})
+						}
+					}
+					// pointer operands of the standard library's numeric / key
+					// methods are dereferenced by the callee
+					if pk := sc.Pkg; pk != nil && (pk.Pkg.Path() == "math/big" || strings.HasPrefix(pk.Pkg.Path(), "crypto/")) {
+						for i, a := range cc.Args {
+							if i == 0 && sc.Signature.Recv() != nil {
+								continue
+							}
+							if _, ok := n.nvals[a]; ok && isPtrLike(a.Type()) {
+								sinks = append(sinks, sink{in, a, fmt.Sprintf("argument #%d of %s", i, p.calleeOf(cc).Name)})
+							}
+						}
 					}
 				}
 			}
@@ -684,6 +741,11 @@ func (e *E3) g6(r *Result, prefix string, f *Flow) {
 			detail := "compared with nil before use"
 			if !ok && elemsCheckedByLoop(f.matcherFor(fn), fn, s.in, s.v) {
 				ok, detail = true, "every element of the slice was compared with nil by a completed loop before this use"
+			}
+			if !ok && strings.Contains(n.nvals[s.v], "the field is cleared") {
+				if why := n.clearedButSetBefore(fn, s.in, s.v); why != "" {
+					ok, detail = true, why
+				}
 			}
 			if !ok {
 				detail = "may be nil (" + n.nvals[s.v] + ") and no nil comparison dominates this use"
@@ -889,4 +951,132 @@ func elemsCheckedByLoop(m *Matcher, fn *ssa.Function, sink ssa.Instruction, v ss
 		}
 	}
 	return false
+}
+
+// spillOfParam: al is the entry-block slot a pointer parameter is stored into.
+func spillOfParam(al *ssa.Alloc) bool {
+	fn := al.Parent()
+	if fn == nil || len(fn.Blocks) == 0 {
+		return false
+	}
+	for _, in := range fn.Blocks[0].Instrs {
+		if st, ok := in.(*ssa.Store); ok && st.Addr == ssa.Value(al) {
+			if _, isParam := st.Val.(*ssa.Parameter); isParam {
+				return true
+			}
+		}
+	}
+	return false
+}
+
+// clearedButSetBefore discharges a use of a field that the code clears
+// elsewhere when this function (or, for a closure, the function that creates it,
+// before creating it) assigns the field a non-nil value or has compared it with
+// nil: the value loaded is then the one just established.
+func (n *nilAn) clearedButSetBefore(fn *ssa.Function, at ssa.Instruction, v ssa.Value) string {
+	ld, ok := v.(*ssa.UnOp)
+	if !ok || ld.Op != token.MUL {
+		return ""
+	}
+	fa, ok := ld.X.(*ssa.FieldAddr)
+	if !ok {
+		return ""
+	}
+	fld := fieldName(fa.X.Type(), fa.Field)
+	scope, before := fn, at
+	if fn.Parent() != nil {
+		// the creation site of the closure in its parent
+		scope = fn.Parent()
+		before = nil
+		for _, b := range scope.Blocks {
+			for _, in := range b.Instrs {
+				if mc, ok := in.(*ssa.MakeClosure); ok && mc.Fn == ssa.Value(fn) {
+					before = mc
+				}
+			}
+		}
+		if before == nil {
+			return ""
+		}
+	}
+	return n.fieldSetBefore(scope, before, fld, 0)
+}
+
+// storesNonNil: fn assigns the field a value that is not nil / may-nil.
+func (n *nilAn) storesNonNil(fn *ssa.Function, fld string) bool {
+	for _, b := range fn.Blocks {
+		for _, in := range b.Instrs {
+			st, ok := in.(*ssa.Store)
+			if !ok {
+				continue
+			}
+			fa, ok := st.Addr.(*ssa.FieldAddr)
+			if !ok || fieldName(fa.X.Type(), fa.Field) != fld {
+				continue
+			}
+			if c, isC := st.Val.(*ssa.Const); isC && c.IsNil() {
+				continue
+			}
+			if _, mayNil := n.nvals[st.Val]; !mayNil {
+				return true
+			}
+		}
+	}
+	return false
+}
+
+func (n *nilAn) fieldSetBefore(scope *ssa.Function, before ssa.Instruction, fld string, depth int) string {
+	for _, b := range scope.Blocks {
+		for _, in := range b.Instrs {
+			switch x := in.(type) {
+			case ssa.CallInstruction:
+				// a helper that establishes the field (lazy creation) was called before
+				if g := n.e.p.body(x.Common().StaticCallee()); g != nil && g != scope && instrBefore(x, before) && n.storesNonNil(g, fld) {
+					return "the field is established by " + n.e.p.FuncName(g) + ", called in " + n.e.p.FuncName(scope) + " before this use"
+				}
+			}
+			switch x := in.(type) {
+			case *ssa.Store:
+				fa2, ok := x.Addr.(*ssa.FieldAddr)
+				if !ok || fieldName(fa2.X.Type(), fa2.Field) != fld {
+					continue
+				}
+				if c, isC := x.Val.(*ssa.Const); isC && c.IsNil() {
+					continue
+				}
+				if _, mayNil := n.nvals[x.Val]; instrBefore(x, before) && !mayNil {
+					return "the field is assigned a non-nil value in " + n.e.p.FuncName(scope) + " before this use"
+				}
+			case *ssa.UnOp:
+				fa2, ok := x.X.(*ssa.FieldAddr)
+				if !ok || x.Op != token.MUL || fieldName(fa2.X.Type(), fa2.Field) != fld {
+					continue
+				}
+				if n.f.StateAt(before).Has(Atom("v:nn:" + canon(x))) {
+					return "the field was compared with nil in " + n.e.p.FuncName(scope) + " before this use"
+				}
+			}
+		}
+	}
+	// every in-region static caller establishes it before calling
+	if depth < 2 {
+		var why string
+		nsites := 0
+		for _, ed := range n.e.p.CallGraph().in[scope] {
+			site, ok := ed.Site.(ssa.CallInstruction)
+			if !ok || ed.Kind != "static" || !n.f.Region[ed.Caller] || ed.Caller == scope {
+				continue
+			}
+			nsites++
+			w := n.fieldSetBefore(ed.Caller, site, fld, depth+1)
+			if w == "" {
+				return ""
+			}
+			why = w
+		}
+		if nsites > 0 {
+			return why + " (at every call site of " + n.e.p.FuncName(scope) + ")"
+		}
+	}
+	return ""
 }
